@@ -873,12 +873,18 @@ func constructedFieldValue(fa *ssa.FieldAddr, onPhi map[ssa.Value]bool) ssa.Valu
 	return val
 }
 
-// localStructFieldValue: fa addresses a field of a struct held in a local variable (an
-// Alloc of this function, possibly captured by its closures) that is only ever accessed
+// localStructFieldValue: fa addresses a field of a struct that lives in a local variable
+// of the function (by value, or allocated there and reached through a local pointer
+// variable, possibly captured by the function's closures) and that is only ever accessed
 // field by field; when that field has exactly one store, its value.
 func localStructFieldValue(fa *ssa.FieldAddr) ssa.Value {
-	al, ok := cellOf(fa.X).(*ssa.Alloc)
-	if !ok {
+	var al *ssa.Alloc
+	if a, ok := cellOf(fa.X).(*ssa.Alloc); ok {
+		al = a
+	} else if a, ok := canon(fa.X, map[ssa.Value]bool{}, false).(*ssa.Alloc); ok {
+		al = a
+	}
+	if al == nil {
 		return nil
 	}
 	pt, ok := al.Type().Underlying().(*types.Pointer)
@@ -891,16 +897,50 @@ func localStructFieldValue(fa *ssa.FieldAddr) ssa.Value {
 	var val ssa.Value
 	n := 0
 	okAll := true
-	var visit func(v ssa.Value)
-	visit = func(v ssa.Value) {
-		rs := v.Referrers()
-		if rs == nil {
+	seen := map[ssa.Value]bool{}
+	var visitPtr func(p ssa.Value)  // p: a value that points to the struct
+	var visitCell func(c ssa.Value) // c: a local variable (cell) that holds such a pointer
+	visitCell = func(c ssa.Value) {
+		if seen[c] || c.Referrers() == nil {
 			return
 		}
-		for _, r := range *rs {
+		seen[c] = true
+		for _, r := range *c.Referrers() {
+			switch r := r.(type) {
+			case *ssa.UnOp:
+				if r.Op == token.MUL && r.X == c {
+					visitPtr(r)
+				}
+			case *ssa.Store:
+				if r.Addr != c {
+					okAll = false
+				}
+			case *ssa.MakeClosure:
+				fn, isFn := r.Fn.(*ssa.Function)
+				if !isFn {
+					okAll = false
+					continue
+				}
+				for i, b := range r.Bindings {
+					if b == c {
+						visitCell(fn.FreeVars[i])
+					}
+				}
+			case *ssa.DebugRef:
+			default:
+				okAll = false
+			}
+		}
+	}
+	visitPtr = func(p ssa.Value) {
+		if seen[p] || p.Referrers() == nil {
+			return
+		}
+		seen[p] = true
+		for _, r := range *p.Referrers() {
 			switch r := r.(type) {
 			case *ssa.FieldAddr:
-				if r.X != v {
+				if r.X != p {
 					okAll = false
 					continue
 				}
@@ -917,49 +957,47 @@ func localStructFieldValue(fa *ssa.FieldAddr) ssa.Value {
 							val = u.Val
 						}
 					case *ssa.UnOp, *ssa.DebugRef:
-					case *ssa.FieldAddr, *ssa.IndexAddr:
-						// nested aggregate: only this rule's own field matters
-						if r.Field == fa.Field {
-							okAll = false
-						}
-					case *ssa.Call, *ssa.Go, *ssa.Defer:
-						// a method called on the field's address (atomic field, mutex): the
-						// field's value is not a plain stored value
-						if r.Field == fa.Field {
-							okAll = false
-						}
 					default:
+						// nested aggregate, method called on the field's address, ...: only
+						// this rule's own field matters
 						if r.Field == fa.Field {
 							okAll = false
 						}
 					}
 				}
 			case *ssa.MakeClosure:
+				// the struct variable itself captured by a closure
 				fn, isFn := r.Fn.(*ssa.Function)
 				if !isFn {
 					okAll = false
 					continue
 				}
 				for i, b := range r.Bindings {
-					if b == v {
-						visit(fn.FreeVars[i])
+					if b == p {
+						visitPtr(fn.FreeVars[i])
 					}
 				}
 			case *ssa.DebugRef:
 			case *ssa.UnOp:
 				// a copy of the whole struct is a read
 			case *ssa.Store:
-				if r.Addr == v {
+				if r.Addr == p {
 					okAll = false // whole-struct assignment
-				} else {
-					okAll = false // the address escapes
+					continue
 				}
+				// the pointer is kept in a local pointer variable with this single store
+				cell, isLocal := r.Addr.(*ssa.Alloc)
+				if !isLocal || len(AllStores(cell)) != 1 {
+					okAll = false
+					continue
+				}
+				visitCell(cell)
 			default:
 				okAll = false
 			}
 		}
 	}
-	visit(al)
+	visitPtr(al)
 	if !okAll || n != 1 {
 		return nil
 	}
